@@ -183,6 +183,17 @@ def check(res):
             keys.add("constructed:reserved-name")
             res.violation("constructed:reserved-name", "get_symbol / make_id_expr requested with the reserved word `%s` as name and type %s: the symbol has type %s, the id-expression %s" %
                           (word, t, d.get("symbol.type"), d.get("id_expr.type")), {"observed": l, "rerun": "echo 'N:reserved <index of the word> <type index>' | build/<hash>/asan/fsweep_driver"})
+    # one name declared over and over with array types of unknown and known bound: every declaration keeps the type it was given
+    pa = run([gexe], input="arrays\n", env=SAN_ENV, timeout=600)
+    ma = re.search(r"ARRAYS declarations=(\d+) bad=(\d+) first=(\S+)", pa.stdout)
+    if pa.returncode != 0 or not ma:
+        keys.add("crash:arrays")
+        res.violation("crash:arrays", "declaring arrays of unknown and known bound under one name aborted", {"stderr": pa.stderr[-2000:], "stdout": pa.stdout[-300:]})
+    elif ma.group(2) != "0":
+        keys.add("constructed:redeclared-array")
+        res.violation("constructed:redeclared-array", "one name declared %s times with array types of unknown / known bound: %s declarations (first: #%s) do not report the type they were "
+                      "declared with (type() of the declaration, of the id-expression naming it, or the scope's type at its position)" % (ma.group(1), ma.group(2), ma.group(3)),
+                      {"observed": ma.group(0), "rerun": "echo arrays | build/<hash>/asan/c09_driver"})
     ll_lines, ll_bad = fsweep.long_lists(res, "", res.tier)
     for l, o, d in ll_bad[:2]:
         k = "growth:long-list:" + l.split()[1]
